@@ -1379,6 +1379,9 @@ struct TemplateCore {
                     ++loop_index;
                 }
             } else {
+                // An array has no keys: do not leave the key of an earlier loop at this level behind.
+                loops_items_->Storage()[tag.Level].Key = StringView<Char_T>{};
+
                 while (loop_index < loop_size) {
                     LoopItem &item = loops_items_->Storage()[tag.Level];
                     item.Value     = loop_set->GetValue(loop_index);
